@@ -1052,7 +1052,20 @@ async fn handle_new_connection_established(
         incoming_pipe_sender,
       };
 
-      if sca_mailbox.send(attach_cmd).await.is_err() {
+      // The session may have failed faster than this command was processed: its ActorStopping
+      // was then seen while nothing was registered for it, and nothing else will report it.
+      let stopped_before_registration = {
+        let mut core_s = core_arc.core_state.write();
+        match core_s.sessions_stopped_unregistered.iter().position(|id| *id == sca_handle_id) {
+          Some(pos) => {
+            core_s.sessions_stopped_unregistered.remove(pos);
+            true
+          }
+          None => false,
+        }
+      };
+
+      if stopped_before_registration || sca_mailbox.send(attach_cmd).await.is_err() {
         // The session is gone already (the peer reset the connection at once). That concerns
         // this connection only: undo its registration as for any session that stopped.
         tracing::warn!(handle = core_handle, sca_id = sca_handle_id, conn_uri = %endpoint_uri_from_event, "Session ended before its pipes could be attached.");
